@@ -148,6 +148,26 @@ impl Cx {
         }
     }
 
+    /// A throw-away recorder for `--replay`: evidence and replay files go to a scratch directory,
+    /// no known findings are loaded, so whatever the single case violates is printed in full.
+    pub fn scratch(property: &str, level: &str) -> Cx {
+        let dir = std::env::temp_dir().join(format!("agv-replay-{}", std::process::id()));
+        let _ = std::fs::create_dir_all(&dir);
+        Cx::new(property, Tier::Quick, level, dir)
+    }
+    /// Finish a scratch recorder: print what was found, remove the scratch directory.
+    pub fn finish_scratch(self) -> String {
+        let dir = self.root.clone();
+        let total = self.violations_total.load(Ordering::Relaxed);
+        let code = self.finish();
+        let _ = std::fs::remove_dir_all(&dir);
+        if total == 0 {
+            format!("the case no longer violates the property (exit {code} is about the one-case run only)")
+        } else {
+            format!("{total} violation(s) reproduced (printed above)")
+        }
+    }
+
     pub fn quick(&self) -> bool {
         self.tier == Tier::Quick
     }
